@@ -50,6 +50,10 @@ pub fn scenario_rows() -> Vec<Tags> {
         def("mand", &[], vec![("mandatory", V::Marker)]),
         def("m2", &["mand", "d"], vec![]),
         def("is", &["association"], vec![]),
+        def("quantityOf", &["association"], vec![]),
+        def("quantities", &["association"], vec![("computedFromReciprocal", V::Marker), ("reciprocalOf", V::Sym("quantityOf".into()))]),
+        def("q1", &[], vec![("quantityOf", sym_list(&["a", "entity"]))]),
+        def("t2", &[], vec![("tagOn", sym_list(&["entity"]))]),
         def(
             "plant",
             &["entity"],
@@ -76,6 +80,7 @@ pub enum Q {
     TagOn(&'static str),
     AllSubtypes(&'static str),
     FitsWrappers(&'static str),
+    Assoc(&'static str, &'static str),
     /// n look-ups of n distinct symbols that no def names (a deployment with many custom tags):
     /// fills both caches with n entries; the answer is a digest
     Volume(usize),
@@ -121,6 +126,10 @@ pub fn queries() -> Vec<Q> {
         Q::TagOn("t1"),
         Q::AllSubtypes("a"),
         Q::FitsWrappers("b-c"),
+        Q::Assoc("d", "quantities"),
+        Q::Assoc("d", "tags"),
+        Q::Assoc("b-c", "quantities"),
+        Q::Assoc("q1", "quantityOf"),
         // ---- not part of the history search (each call adds a thousand cache entries)
         Q::Inheritance(""),
         Q::Supertypes(""),
@@ -182,6 +191,7 @@ pub fn run_query(ns: &'static Namespace<'static>, q: &Q) -> String {
             let y = Symbol::from(*s);
             format!("{}{}{}{}", ns.fits_marker(&y), ns.fits_val(&y), ns.fits_choice(&y), ns.fits_entity(&y))
         }
+        Q::Assoc(parent, assoc) => names(&ns.associations(&Symbol::from(*parent), &Symbol::from(*assoc))),
         Q::Volume(n) => {
             let (mut fit, mut len) = (0usize, 0usize);
             for i in 0..*n {
@@ -276,7 +286,7 @@ fn snap_key(s: &Snapshot) -> String {
 pub type Partition = BTreeMap<(usize, u64), usize>;
 
 fn key_names() -> Vec<&'static str> {
-    vec!["a", "b", "c", "d", "entity", "e2", "b-c", "relationship", "rel", "xRef", "association", "tagOn", "tags", "t1", "mand", "m2", "zz", "is", "plant", "marker", "val", "choice", "pt", "eq"]
+    vec!["a", "b", "c", "d", "entity", "e2", "b-c", "relationship", "rel", "xRef", "association", "tagOn", "tags", "t1", "mand", "m2", "zz", "is", "plant", "marker", "val", "choice", "pt", "eq", "quantityOf", "quantities", "q1", "t2"]
 }
 
 /// all keys of both maps in one shard each (`one`), or every key in its own shard
@@ -682,7 +692,7 @@ pub fn child(_tier: Tier, job: String, _start: u64, _end: u64, ctx: &mut ChildCt
 
 pub fn run(tier: Tier) -> i32 {
     let mut run = Run::new("C14", tier, "model_checking");
-    run.rule = "subject: the real Namespace code over the hook shim. C14-H (E3): breadth-first search from the cold namespace; transition = one of 36 concrete queries (supertypes_of, all_supertypes_of, inheritance, fits and its four wrappers, reflect, Reflection::fits, def_of_dict, tags, is, tag_on, implementation, protos with flattened children, all_subtypes_of, has_relationship with cyclic refs) on an 18-def scenario namespace (diamond, conjunct, entity, transitive relationship, reciprocal association, children prototypes) rebuilt by replaying the history; state = cache snapshot; to closure; every answer = cold answer = graph answer; run on the genuine DashMap (isolated child, watchdog) and on the Shim (single scheduled thread, all keys in one shard, so a self-deadlock is seen): both transition graphs must be identical. C14-V: every query after 1100 / 2200 look-ups of symbols no def names (volume: more entries than any fixed cache bound) still gives its cold answer. C14-S (E4+E2): scenarios (a) 2 threads x 1 query, all 55 unordered pairs of a 10-query core, from the cold state, from warm states and after the volume warm-up; (b) 2 threads x 2 queries; (c) 3 threads x 1 query, all 220 multisets; for the two extreme shard partitions (thorough: every partition of the touched supertypes keys); every schedule with <= b preemptions (scheduling points: every shard-lock acquisition, thread start/exit). Oracle per execution: no deadlock, no panic, every answer equals the answer given alone, every final cache entry occurs in the sequential closure. states = cache states of C14-H + scenario configurations, transitions = history steps + schedules executed".into();
+    run.rule = "subject: the real Namespace code over the hook shim. C14-H (E3): breadth-first search from the cold namespace; transition = one of 40 concrete queries (supertypes_of, all_supertypes_of, inheritance, fits and its four wrappers, reflect, Reflection::fits, def_of_dict, tags, is, tag_on, implementation, protos with flattened children, all_subtypes_of, has_relationship with cyclic refs) on a 22-def scenario namespace (two computed associations) (diamond, conjunct, entity, transitive relationship, reciprocal association, children prototypes) rebuilt by replaying the history; state = cache snapshot; to closure; every answer = cold answer = graph answer; run on the genuine DashMap (isolated child, watchdog) and on the Shim (single scheduled thread, all keys in one shard, so a self-deadlock is seen): both transition graphs must be identical. C14-P: every ordered pair of queries (thorough: every triple) and every query after 12 repetitions of every other one, from the cold namespace, independent of cache snapshots (hidden memos). C14-V: every query after 1100 / 2200 look-ups of symbols no def names (volume: more entries than any fixed cache bound) still gives its cold answer. C14-S (E4+E2): scenarios (a) 2 threads x 1 query, all 55 unordered pairs of a 10-query core, from the cold state, from warm states and after the volume warm-up; (b) 2 threads x 2 queries; (c) 3 threads x 1 query, all 220 multisets; for the two extreme shard partitions (thorough: every partition of the touched supertypes keys); every schedule with <= b preemptions (scheduling points: every shard-lock acquisition, thread start/exit). Oracle per execution: no deadlock, no panic, every answer equals the answer given alone, every final cache entry occurs in the sequential closure. states = cache states of C14-H + scenario configurations, transitions = history steps + schedules executed".into();
     run.assume("DashMap's own lock is trusted; the Shim models it as a reader-preferring RW lock per shard (shared granted unless a writer holds; exclusive needs the shard free) — read from dashmap-6.1.0/src/lock.rs — and is bound to the genuine DashMap by the identical C14-H transition graphs");
     run.assume("scheduling points at lock acquisitions suffice: all shared data is reached only under those locks");
     run.assume("2 and 3 threads explored exhaustively within the preemption bound; 4-16 threads are out of reach of exhaustive exploration");
@@ -733,6 +743,39 @@ pub fn run(tier: Tier) -> i32 {
                 format!("the history search over the Shim ({} states, {} transitions, {want}) and over the genuine DashMap ({} states, {:?}) differ: the lock/shard model is not bound to the real thing", hs.states.len(), hs.transitions.len(), run.counter("real-states"), real_digest),
             );
         }
+    }
+
+    // ---- C14-P: every ordered pair (thorough: triple) of queries from the cold namespace,
+    // whatever the cache snapshots say (state the snapshot cannot see — a memo outside the two
+    // maps — still has to leave every answer unchanged), and every query after 12 repetitions of
+    // every other one (hit counters, promotions)
+    if hs.failure.is_none() {
+        let n = queries().len() - EXTRA;
+        let part = Arc::new(partition_extreme(true));
+        let l = par_for(n * n, |k, local| {
+            let (i, j) = (k / n, k % n);
+            let mut hists: Vec<Vec<usize>> = vec![vec![i, j], std::iter::repeat(i).take(12).chain(std::iter::once(j)).collect()];
+            if tier == Tier::Thorough {
+                for m in 0..n {
+                    hists.push(vec![i, m, j]);
+                }
+            }
+            for hist in hists {
+                local.eval();
+                local.transitions += hist.len() as u64;
+                local.count("pair-histories");
+                match with_partition(&part, || run_history(hooks::Mode::Shim, &hist, &part)) {
+                    Err(e) => local.fail("history-panic:pairs", json!({"history": hist, "backend": "shim"}), e),
+                    Ok((answers, _)) => {
+                        let a = answers.last().unwrap();
+                        if *a != cold[j] {
+                            local.fail("history-changes-answer:pairs", json!({"history": hist, "backend": "shim"}), format!("query {:?} after {:?} answers {a:?}, cold answer {:?}", queries()[j], hist[..hist.len() - 1].iter().map(|q| format!("{:?}", queries()[*q])).collect::<Vec<_>>(), cold[j]));
+                        }
+                    }
+                }
+            }
+        });
+        run.absorb(l);
     }
 
     // ---- C14-V: volume. After more look-ups than any fixed cache bound one would pick (1100
@@ -841,6 +884,23 @@ pub fn replay(case: &J) -> Verdict {
         Err((sig, d)) => return Err((format!("{sig}:shim"), d)),
     };
     let r = RefNs::make(&scenario_rows());
+    if let Some(h) = case["history"].as_array() {
+        // one concrete history (pair / repetition / volume families)
+        let hist: Vec<usize> = h.iter().map(|x| x.as_u64().unwrap_or(0) as usize).collect();
+        let part = Arc::new(if case["volume"] == true { partition_extreme(false) } else { partition_extreme(true) });
+        let fam = if case["volume"] == true { "volume" } else { "pairs" };
+        return match with_partition(&part, || run_history(hooks::Mode::Shim, &hist, &part)) {
+            Err(e) => Err((format!("history-panic:{fam}"), e)),
+            Ok((answers, _)) => {
+                let j = *hist.last().unwrap();
+                if answers.last().unwrap() != &cold[j] {
+                    Err((format!("history-changes-answer:{fam}"), format!("query {:?} answers {:?}, cold {:?}", queries()[j], answers.last().unwrap(), cold[j])))
+                } else {
+                    Ok(())
+                }
+            }
+        };
+    }
     if case.get("history").is_some() {
         let backend = case["backend"].as_str().unwrap_or("shim");
         if backend == "real" {
